@@ -182,7 +182,7 @@ def shared_attr_probe():
 
                 def mk(cid):
                     def prepare():
-                        c._con
+                        len(c)          # opens this thread's connection (public call; not yet a scheduled client)
 
                     def execute(op):
                         if op == 'len':
